@@ -266,7 +266,24 @@ func errStr(e error) string {
 	return trunc(e.Error(), 300)
 }
 
+// the `headers` option of the http provider config, per class
+func mfConfigHeaders(cls string) []string {
+	switch cls {
+	case "cfghdr_nocolon":
+		return []string{"[X-Conf: ok]", "[Host example.org]"}
+	case "cfghdr_nobracket":
+		return []string{"[Host: example.org"}
+	case "cfghdr_emptykey":
+		return []string{"[: value]"}
+	}
+	return nil
+}
+
 func mfHTTPProvider(format, mode string, data []byte) func() (core.Provider, error) {
+	return mfHTTPProviderH(format, mode, data, nil)
+}
+
+func mfHTTPProviderH(format, mode string, data []byte, headers []string) func() (core.Provider, error) {
 	return func() (core.Provider, error) {
 		fs := afero.NewMemMapFs()
 		if err := afero.WriteFile(fs, "/ammo", data, 0o644); err != nil {
@@ -277,7 +294,7 @@ func mfHTTPProvider(format, mode string, data []byte) func() (core.Provider, err
 			dec = httpconf.DecoderJSONLine
 		}
 		conf := httpconf.Config{Decoder: dec, File: "/ammo", Passes: 1, Preload: mode == "preload",
-			ContinueOnError: mode == "continue"}
+			ContinueOnError: mode == "continue", Headers: headers}
 		return httpprov.NewProvider(fs, conf)
 	}
 }
@@ -298,7 +315,7 @@ func mfRunAmmoCase(c mfCase) mfLine {
 	if c.Format == "grpcjson" {
 		r = mfRunProvider(mfGRPCProvider(c.Mode, data), mfProjectGRPC, 0)
 	} else {
-		r = mfRunProvider(mfHTTPProvider(c.Format, c.Mode, data), mfProjectHTTP, 0)
+		r = mfRunProvider(mfHTTPProviderH(c.Format, c.Mode, data, mfConfigHeaders(c.Cls)), mfProjectHTTP, 0)
 	}
 	ids := make([]string, len(r.deliveries))
 	for i, d := range r.deliveries {
